@@ -4,8 +4,8 @@ from .common import *
 from ..models.serde import JsonValue
 
 BOUNDS = {"targets": "content of any length (0 .. beyond the 16 KiB read buffer; reads through the linker bounded to 3 data reads per file, so "
-                     "<= 8 + 2x16 KiB go through consume(); larger targets stated as outside), absolute path or relative path with the working "
-                     "directory elsewhere",
+                     "<= 8 + 2x16 KiB go through consume(); larger targets stated as outside), absolute path, relative path with the working "
+                     "directory elsewhere, or a path that goes through a directory symlink followed by '..'",
           "histories": "link by key / by address, optional partial reads through the linker before commit, then target left alone / rewritten with "
                        "other bytes / removed / replaced by another file; address already present as regular content; re-linking",
           "options": "declared size (symbolic) and integrity enforced as for ordinary writes",
@@ -19,11 +19,24 @@ def link_family(ctx, keyed, relative, partial, after, api):
     I = scn.s.I
     D = scn.blob("D")
     data = scn.whole(D)
-    tag = "C19:%s:%s:%s:%s:%s" % (api, "keyed" if keyed else "hash", "rel" if relative else "abs", "partial" if partial else "direct", after)
+    spelling = {False: "abs", True: "rel", "dotdot": "dotdot-after-dir-symlink"}[relative]
+    tag = "C19:%s:%s:%s:%s:%s" % (api, "keyed" if keyed else "hash", spelling, "partial" if partial else "direct", after)
+    TARGET = ROOT + "/data/target-file"
+    if relative == "dotdot":
+        # the caller spells the target through a directory symlink followed by '..': the operating system resolves
+        # <root>/data/alias/../target-file to <root>/elsewhere/target-file (alias -> <root>/elsewhere/sub), which is not
+        # what folding the '..' textually gives (<root>/data/target-file holds other bytes)
+        TARGET = ROOT + "/elsewhere/target-file"
+        scn.fs_mkdir_p(ROOT + "/elsewhere/sub")
+        scn.fs_mkdir_p(ROOT + "/data")
+        scn.fs_symlink(ROOT + "/elsewhere/sub", ROOT + "/data/alias")
+        X = scn.blob("X")
+        scn.distinct(X, D)
+        scn.fs_write(ROOT + "/data/target-file", scn.whole(X))
     scn.fs_write(TARGET, data)
     tino = scn.file_at(SBytes.of(TARGET))
-    tpath = TARGET
-    if relative:
+    tpath = TARGET if relative != "dotdot" else ROOT + "/data/alias/../target-file"
+    if relative is True:
         # the caller's working directory is the target's directory; the cache lives elsewhere
         scn.chdir(ROOT + "/data")
         tpath = "target-file"
@@ -48,10 +61,10 @@ def link_family(ctx, keyed, relative, partial, after, api):
                native=lambda cz: {"kind": "tree_file", "path": cz.bytes_of(cp).decode()[len(ROOT) + 1:], "type": "symlink"})
     for rec in scn.env.trace[mark:]:
         if rec.get("mutating") and rec.get("done") and isinstance(rec.get("path"), SBytes) and rec["kind"] != "symlink":
-            hit = sb.content_eq(rec["path"], SBytes.of(TARGET), ctx.w) is True or (relative and rec["path"].key() == SBytes.of("target-file").key())
+            hit = sb.content_eq(rec["path"], SBytes.of(TARGET), ctx.w) is True or (relative is True and rec["path"].key() == SBytes.of("target-file").key())
             ctx.expect(not hit, tag + ":target-touched", "link_to modified the target file (%s)" % rec["kind"], native={"kind": "unreplayable", "why": "trace-level"})
     ctx.expect(sb.content_eq(tino.sb, data, ctx.w), tag + ":target-changed", "the target's bytes changed", native=None)
-    if relative:
+    if relative is True:
         scn.chdir(ROOT)      # readers run from another working directory
     if keyed:
         md = scn.metadata("k")
@@ -153,6 +166,11 @@ def tasks(tier, flavours):
                         if tier == "quick" and relative and after in ("removed", "replaced"):
                             continue
                         out.append(dict(module="C19", family="link_family", flavour=fl, params=dict(keyed=keyed, relative=relative, partial=partial, after=after, api=api)))
+        for keyed in (True, False):
+            for after in ("intact", "rewritten"):
+                if tier == "quick" and fl != "sync" and not keyed:
+                    continue
+                out.append(dict(module="C19", family="link_family", flavour=fl, params=dict(keyed=keyed, relative="dotdot", partial=False, after=after, api=api)))
         for which in ("size", "integrity", "existing-content"):
             out.append(dict(module="C19", family="link_options", flavour=fl, params=dict(which=which, api=api)))
     return out
